@@ -57,12 +57,15 @@ type c03Worker struct {
 	handler  *webdav.Handler
 	n        int
 	linkBase string
+	spell    int    // how the served root is spelled when configuring the file system (fsRootSpellings)
+	lastPath string // URL path the handler saw for the last request
 }
 
 func c03StartTrees() []harness.Tree {
 	return []harness.Tree{
 		{"/": {Dir: true}},
-		{"/": {Dir: true}, "/a": {Dir: true}, "/a/f": {Content: "inside-af"}, "/g": {Content: "inside-g"}, "/%2e%2e": {Content: "inside-enc-dots"}, "/a%2fb": {Content: "inside-enc-slash"}},
+		{"/": {Dir: true}, "/a": {Dir: true}, "/a/f": {Content: "inside-af"}, "/g": {Content: "inside-g"}, "/%2e%2e": {Content: "inside-enc-dots"}, "/a%2fb": {Content: "inside-enc-slash"},
+			"/a.": {Content: "inside-a-dot"}, "/g.": {Dir: true}, "/g./..x": {Content: "inside-dotdot-x"}},
 		nil, // built by a real MKCOL+PUT+MOVE history
 	}
 }
@@ -115,7 +118,7 @@ func (w *c03Worker) build(start harness.Tree) {
 	os.WriteFile(filepath.Join(w.sb, "sib", "canary-sib"), []byte(canarySib), 0o644)
 	os.WriteFile(filepath.Join(w.sb, "served2", "canary"), []byte(canaryS2), 0o644)
 	w.served = filepath.Join(w.sb, "served")
-	w.handler = &webdav.Handler{FileSystem: webdav.LocalFileSystem(w.served)}
+	w.handler = &webdav.Handler{FileSystem: webdav.LocalFileSystem(spellRoot(w.served, w.spell))}
 	if start == nil {
 		harness.Materialise(w.served, harness.Tree{"/": {Dir: true}})
 		for _, q := range []harness.Req{{Method: "MKCOL", Path: "/m"}, {Method: "PUT", Path: "/m/x", Body: "hist"}, {Method: "MOVE", Path: "/m", Header: map[string]string{"Destination": "/n"}}, {Method: "PUT", Path: "/g", Body: "hist-g"}} {
@@ -160,14 +163,17 @@ func (w *c03Worker) serve(q c03Req) (resp harness.Resp, ok bool) {
 		defer cancel()
 		hr.URL = r.URL
 		hr.RequestURI = r.RequestURI
+		w.lastPath = r.URL.Path
 		return harness.ServeRequest(w.handler, hr), true
 	}
+	w.lastPath = q.Path
 	return harness.Serve(w.handler, q.Req), true
 }
 
 type c03Case struct {
 	Start harness.Tree `json:"start"`
 	Req   c03Req       `json:"request"`
+	Spell int          `json:"root_spelling,omitempty"`
 }
 
 // c03Judge runs one request and the oracle; returns clause/detail ("" if fine) and the visit for other oracles.
@@ -212,6 +218,38 @@ func (w *c03Worker) judge(q c03Req) (clause, detail string, resp harness.Resp, r
 		ms, err := indep.ReadMultiStatus(resp.Body)
 		if err != nil {
 			return "multistatus-unreadable", err.Error(), resp, true
+		}
+		// the reported paths address exactly the resources in scope, each once: the target the request
+		// path maps to, and its members down to the requested depth
+		if target := path.Clean(w.lastPath); path.IsAbs(target) && q.Form != "destination" {
+			var want []string
+			if _, ok := after[target]; ok {
+				for p := range after {
+					rel := strings.TrimPrefix(p, strings.TrimSuffix(target, "/")+"/")
+					switch {
+					case p == target:
+						want = append(want, p)
+					case !strings.HasPrefix(p, strings.TrimSuffix(target, "/")+"/") || !after[target].Dir:
+					case q.Header["Depth"] == "infinity":
+						want = append(want, p)
+					case q.Header["Depth"] == "1" && !strings.Contains(rel, "/"):
+						want = append(want, p)
+					}
+				}
+			}
+			var got []string
+			for _, r := range ms.Responses {
+				for _, h := range r.Hrefs {
+					if hp, err := indep.HrefPath(h); err == nil {
+						got = append(got, path.Clean(hp))
+					}
+				}
+			}
+			sort.Strings(want)
+			sort.Strings(got)
+			if len(want) > 0 && strings.Join(got, "\x01") != strings.Join(want, "\x01") {
+				return "href-scope", fmt.Sprintf("request path %q maps to %q; hrefs address %q, in scope are %q", w.lastPath, target, got, want), resp, true
+			}
 		}
 		for _, r := range ms.Responses {
 			for _, h := range r.Hrefs {
@@ -297,6 +335,7 @@ func c03Requests(s string) []c03Req {
 		add(m, nil, "")
 	}
 	out = append(out, c03Req{Req: harness.Req{Method: "PUT", Path: s, Raw: true, Body: "hostile-put"}, Form: "url-path"})
+	add("PROPFIND", map[string]string{"Depth": "0"}, "")
 	add("PROPFIND", map[string]string{"Depth": "1"}, "")
 	add("PROPFIND", map[string]string{"Depth": "infinity"}, "")
 	add("COPY", map[string]string{"Destination": "/dst-copy"}, "")
@@ -325,8 +364,22 @@ func c03Explore(r *engine.Run, quick bool, visit func(v *fsVisit)) {
 	} else {
 		strs = append(c03Strings(c03Tokens, 1, 4), c03Strings(c03Sub6, 5, 5)...)
 	}
-	starts := c03StartTrees()
 	r.Extra["hostile_strings"] = len(strs)
+	c03ExploreSpell(r, strs, 0, visit)
+	// the same sandbox with the served root configured in other spellings, over the short strings
+	short := c03Strings(c03Tokens, 1, 2)
+	if !quick {
+		short = c03Strings(c03Tokens, 1, 3)
+	}
+	for sp := 1; sp < len(fsRootSpellings); sp++ {
+		c03ExploreSpell(r, short, sp, visit)
+	}
+	r.Extra["root_spellings"] = fsRootSpellings
+	r.Extra["hostile_strings_per_other_spelling"] = len(short)
+}
+
+func c03ExploreSpell(r *engine.Run, strs []string, spell int, visit func(v *fsVisit)) {
+	starts := c03StartTrees()
 	const block = 64
 	nb := (len(strs) + block - 1) / block
 	workers := make(chan *c03Worker, 64)
@@ -339,6 +392,7 @@ func c03Explore(r *engine.Run, quick bool, visit func(v *fsVisit)) {
 			w = newC03Worker()
 		}
 		defer func() { workers <- w }()
+		w.spell = spell
 		w.build(starts[si])
 		if bi == 0 {
 			s.State()
@@ -351,9 +405,9 @@ func c03Explore(r *engine.Run, quick bool, visit func(v *fsVisit)) {
 					continue
 				}
 				s.Transition()
-				idx := (int64(si)<<40 | int64(k)<<8 | int64(qi)) + 1<<50
+				idx := (int64(spell)<<56 | int64(si)<<40 | int64(k)<<8 | int64(qi)) + 1<<50
 				if visit != nil {
-					visit(&fsVisit{S: s, Index: idx, State: w.start, Req: q.Req, Resp: resp, After: w.start, Root: w.served, RootReal: w.served})
+					visit(&fsVisit{S: s, Index: idx, State: w.start, Req: q.Req, Resp: resp, After: w.start, Root: w.served, RootReal: w.served, Spell: spell})
 					continue
 				}
 				s.Clause("outside snapshot identical; no canary in response; hrefs inside namespace and addressable; unmappable path refused")
@@ -365,8 +419,8 @@ func c03Explore(r *engine.Run, quick bool, visit func(v *fsVisit)) {
 					s.Sample(map[string]interface{}{"start_tree": si, "form": q.Form, "request": q.Req.String(), "status": resp.Status})
 				}
 				if clause != "" {
-					s.Violate(engine.Violation{Sig: fmt.Sprintf("C03/%s/%s.%s/%s/status=%d", clause, q.Method, q.Form, c03PathClass(strs[k]), resp.Status), Clause: clause, Index: idx, Kind: "C03",
-						Case: c03Case{Start: w.start, Req: q}, Expected: "nothing outside the served directory read or changed; hrefs inside the namespace; unmappable paths refused 4xx",
+					s.Violate(engine.Violation{Sig: fmt.Sprintf("C03/%s/%s.%s/%s/status=%d%s", clause, q.Method, q.Form, c03PathClass(strs[k]), resp.Status, map[bool]string{false: "", true: "/root=" + fsRootSpellings[spell]}[spell != 0]), Clause: clause, Index: idx, Kind: "C03",
+						Case: c03Case{Start: w.start, Req: q, Spell: spell}, Expected: "nothing outside the served directory read or changed; hrefs inside the namespace; unmappable paths refused 4xx",
 						Observed: fmt.Sprintf("status %d: %s", resp.Status, detail)})
 				}
 			}
@@ -395,6 +449,7 @@ func init() {
 		defer harness.Cleanup()
 		w := newC03Worker()
 		defer w.close()
+		w.spell = c.Spell
 		w.build(c.Start)
 		clause, detail, resp, reached := w.judge(c.Req)
 		return clause == "", fmt.Sprintf("reached=%v status %d %s %s", reached, resp.Status, clause, detail)
